@@ -129,6 +129,7 @@ func travWorker(c *evid.Ctx, prop string) {
 			defer wg.Done()
 			defer func() { <-sem }()
 			l := trav.NewLookup(net)
+			l.SlowFilter = lr.Intn(3) == 0
 			out := l.RunFree(lr)
 			mu.Lock()
 			defer mu.Unlock()
